@@ -83,6 +83,12 @@ typedef struct {
 extern JANET_THREAD_LOCAL JanetVerifGC janet_verif_gc;
 int janet_verif_safepoint(void);
 void janet_verif_report(void);
+extern volatile JanetAtomicInt janet_verif_live_threaded;
+#ifdef JANET_EV
+#define JANET_VERIF_NSITES 8
+extern volatile JanetAtomicInt janet_verif_site_hits[JANET_VERIF_NSITES];
+void janet_verif_perturb(int site);
+#endif
 #endif
 
 #endif
